@@ -178,6 +178,7 @@ class AtomsEngine(Engine):
                 "order_seed": core.sub_seed(i // 16, "order"),
                 "callers": 1,
                 "ops": [],
+                **({"locale": "C"} if (i // 16) % 4 == 3 else {}),
             }
         callers = rng.choice([1, 1, 2, 2, 3])
         ops = []
@@ -229,7 +230,11 @@ class AtomsEngine(Engine):
                     pts.append({"at": at, "op": nested})
                 op["preempt"] = pts
             ops.append(op)
-        return {"kind": "history", "callers": callers, "ops": ops}
+        scn = {"kind": "history", "callers": callers, "ops": ops}
+        if rng.random() < 0.15:
+            # legacy-locale deployment: open() without encoding= is strict ASCII (core.apply_process_env)
+            scn["locale"] = "C"
+        return scn
 
     # ---------------------------------------------------------------- execute
     def execute(self, scenario, ctx, scratch):
